@@ -65,8 +65,10 @@ let ask (fn : string) (arg : string) : qc =
 
 let rec int_of_nat (n : nat) : int = match n with O -> 0 | S k -> 1 + int_of_nat k
 
+let exact_mode = Array.length Sys.argv > 1 && Sys.argv.(1) = "exact"
+
 let kk : qc fops =
-  qcK (ask "pi" "0/1")
+  qcK exact_mode (ask "pi" "0/1")
       (fun x -> ask "sqrt" (qkey x))
       (fun x -> ask "exp" (qkey x))
       (fun x -> ask "ln" (qkey x))
